@@ -29,6 +29,7 @@ type item struct {
 	Kind string `json:"kind"` // worker startworker service hook task micro_high micro_med micro_low startmicro signal
 	Out  string `json:"out"`  // ok err panic_nil panic_err panic_str panic_rt panic_struct
 	Done int    `json:"done"` // signal variants: how often done() is called
+	Bo   int    `json:"bo"`   // service workers: restart back-off in milliseconds (0: 10 ms)
 }
 
 type script struct {
@@ -153,9 +154,17 @@ func launch(it *item) {
 	case "startworker":
 		modM.StartWorker(it.ID, fn)
 	case "service":
-		modM.StartServiceWorker(it.ID, 10*time.Millisecond, fn)
+		bo := 10 * time.Millisecond
+		if it.Bo > 0 {
+			bo = time.Duration(it.Bo) * time.Millisecond
+		}
+		modM.StartServiceWorker(it.ID, bo, fn)
 	case "hook":
 		modM.TriggerEvent("ev-"+it.ID, nil)
+	case "xhook": // a hook of M on an event of the module it depends on
+		if modA != nil {
+			modA.TriggerEvent("ev-"+it.ID, nil)
+		}
 	case "task":
 		t := modM.NewTask(it.ID, func(ctx context.Context, _ *modules.Task) error { return fn(ctx) })
 		mu.Lock()
@@ -276,12 +285,18 @@ func main() {
 	modules.VerifSetTimeouts(10*time.Second, 8*time.Second)
 
 	ids, kinds, outs, pans, fails := []string{}, []string{}, []string{}, []string{}, []string{}
+	bos := []int{}
 	for i := range sc.Items {
 		it := &sc.Items[i]
 		byID[it.ID] = it
 		ids = append(ids, it.ID)
 		kinds = append(kinds, it.Kind)
 		outs = append(outs, it.Out)
+		if it.Bo > 0 {
+			bos = append(bos, it.Bo)
+		} else {
+			bos = append(bos, 10)
+		}
 		if strings.HasPrefix(it.Out, "panic") {
 			pans = append(pans, it.ID)
 		}
@@ -300,10 +315,11 @@ func main() {
 			ids = append(ids, probes[i].ID)
 			kinds = append(kinds, probes[i].Kind)
 			outs = append(outs, "ok")
+			bos = append(bos, 10)
 		}
 	}
 	tr.Emit(map[string]any{"e": "init", "ids": ids, "kinds": kinds, "outs": outs, "hasStopFn": sc.HasStopFn,
-		"panics": pans, "failing": fails, "mode": sc.Mode, "h": 0, "t": 0})
+		"panics": pans, "failing": fails, "backoffs": bos, "mode": sc.Mode, "h": 0, "t": 0})
 
 	// error channel collector
 	repCh := make(chan *modules.ModuleError, 1000)
@@ -346,6 +362,9 @@ func main() {
 		if sc.Items[i].Kind == "hook" {
 			modM.RegisterEvent("ev-"+sc.Items[i].ID, false)
 		}
+		if sc.Items[i].Kind == "xhook" && modA != nil {
+			modA.RegisterEvent("ev-"+sc.Items[i].ID, false)
+		}
 	}
 	modM.RegisterEvent("ev-ph", false)
 	if sc.Mode == "manage" {
@@ -387,10 +406,14 @@ func main() {
 	}
 	for i := range sc.Items {
 		it := &sc.Items[i]
-		if it.Kind == "hook" {
+		if it.Kind == "hook" || (it.Kind == "xhook" && modA != nil) {
 			it := it
 			fn := work(it)
-			_ = modM.RegisterEventHook("M", "ev-"+it.ID, it.ID, func(ctx context.Context, _ interface{}) error { return fn(ctx) })
+			src := "M"
+			if it.Kind == "xhook" {
+				src = "A"
+			}
+			_ = modM.RegisterEventHook(src, "ev-"+it.ID, it.ID, func(ctx context.Context, _ interface{}) error { return fn(ctx) })
 		}
 	}
 	phItem := byID["ph"]
